@@ -113,6 +113,15 @@ def gen_spectrum(rng, f_min, f_max, gain, p_max, one=False):
             if lowest - f_min >= 30e9:
                 extra = [e for e in extra if e[0] + e[1] / 2 <= f_min - 30e9]
                 extra.append([f_min + 5e9, 50e9, 32e9])
+    if rng.random() < 0.3 and not one:
+        edge = []
+        if rng.random() < 0.6:       # 75 GHz slot, 32 GBaud, centre 25 GHz inside the lower edge: slot out, baud in
+            edge.append([f_min + 25e9, 75e9, 32e9])
+        if rng.random() < 0.6 or not edge:
+            edge.append([f_max - rng.choice([25e9, 20e9, 30e9]), 75e9, 32e9])
+        # edge channels come first in the overlap guard: they displace in-band neighbours, never the other way round
+        keep = [c for c in chans + extra if all(abs(c[0] - e[0]) >= (c[1] + e[1]) / 2 for e in edge)]
+        chans, extra = keep, edge
     chans = sorted(chans + extra, key=lambda c: c[0])
     # non-overlap guard
     ok = [chans[0]]
